@@ -11,6 +11,7 @@ import (
 	"context"
 	"io"
 	"os"
+	"runtime"
 	"sync"
 
 	"github.com/chrislusf/raft"
@@ -188,6 +189,7 @@ type fakeKV struct {
 func newFakeKV() *fakeKV { return &fakeKV{data: map[string]string{}} }
 
 func (f *fakeKV) Get(ctx context.Context, key string, opts *client.GetOptions) (*client.Response, error) {
+	defer runtime.Gosched() // a read-modify-write client gets a chance to lose the race
 	f.mu.Lock()
 	defer f.mu.Unlock()
 	v, ok := f.data[key]
